@@ -13,7 +13,9 @@ import (
 //
 //	events: s<i> start | p<j>.<i> public key of j to i | d<j>.<i> deal of j to i |
 //	        r<k>.<i> Responses message of k to i | x<id>.<i> adversarial message <id> to i
-//	defs:   X<id>=<spec>;...  with spec one of
+//	defs:   DUP=<a>.<b>...                                the listed members all use member a's long-term key
+//	        X<id>=<spec>;...  with spec one of
+//	        K.<claim>.<sender>.<keyowner|x<N>>            PublicKey claiming index <claim>, sent by <sender>
 //	        D.<claim>.<sealer>.<rcpt>.<variant>           sealed by <sealer>'s key for <rcpt> (see Sim.AdvDeal)
 //	        GD.<j>.<i>.<claim> / PD.<j>.<i>.<claim>       genuine / previous-session deal of j for i, Index := claim
 //	        R.<dealer>.<responder>.<sid>.<a|c>.<signer>   response built from scratch (see Sim.AdvResp)
@@ -23,7 +25,17 @@ import (
 // Output "st=<stage per member> keys=<class per member>".
 func RunSimLine(w []string) (string, *Sim) {
 	seed, n := h.BigDec(w[1]).Uint64(), h.Atoi(w[2])
-	s := NewSim(seed, n)
+	var dup []int
+	if w[3] != "-" {
+		for _, d := range strings.Split(w[3], ";") {
+			if strings.HasPrefix(d, "DUP=") {
+				for _, x := range strings.Split(d[4:], ".") {
+					dup = append(dup, h.Atoi(x))
+				}
+			}
+		}
+	}
+	s := NewSimDup(seed, n, dup)
 	defs := map[string]string{}
 	if w[3] != "-" {
 		for _, d := range strings.Split(w[3], ";") {
@@ -77,6 +89,8 @@ func (s *Sim) injectSpec(spec string, to int) {
 	f := strings.Split(spec, ".")
 	a := func(k int) int { return h.Atoi(f[k]) }
 	switch f[0] {
+	case "K":
+		s.InjectPk(to, s.AdvPk(a(1), f[3]), a(2))
 	case "D":
 		d := s.AdvDeal(a(1), a(2), a(3), strings.Join(f[4:], "."))
 		info := s.Sealed[len(s.Sealed)-1]
